@@ -397,7 +397,8 @@ impl FileSpec {
     pub(crate) fn read_dir_related_files(&self) -> Vec<PathBuf> {
         let fixed_name_part = self.fixed_name_part();
         let mut log_files = std::fs::read_dir(&self.directory)
-            .unwrap(/*ignore errors from reading the directory*/)
+            .into_iter(/*ignore errors from reading the directory*/)
+            .flatten()
             .flatten(/*ignore errors from reading entries in the directory*/)
             .filter(|entry| entry.path().is_file())
             .map(|de| de.path())
